@@ -1,3 +1,145 @@
 package main
 
-func corsRun() {}
+import (
+	"encoding/json"
+	"sort"
+	"strings"
+
+	"github.com/bfenetworks/bfe/bfe_basic"
+	"github.com/bfenetworks/bfe/bfe_http"
+	"github.com/bfenetworks/bfe/bfe_module"
+	"github.com/bfenetworks/bfe/bfe_modules/mod_cors"
+
+	"verifharness/vh"
+)
+
+// One C52 case as printed by specs/Mod/GenCors.tla.
+type corsCase struct {
+	ID   int `json:"id"`
+	Rule struct {
+		Origins []string `json:"origins"`
+		Cred    bool     `json:"cred"`
+		Full    bool     `json:"full"`
+	} `json:"rule"`
+	Req struct {
+		Method string   `json:"method"`
+		Origin string   `json:"origin"`
+		Acrm   string   `json:"acrm"`
+		Vary   []string `json:"vary"`
+	} `json:"req"`
+}
+
+type corsObs struct {
+	Loaded    bool              `json:"loaded"`
+	LoadErr   string            `json:"loaderr,omitempty"`
+	Panic     string            `json:"panic,omitempty"`
+	Preflight bool              `json:"preflight"` // the module answered itself (BfeHandlerResponse)
+	Status    int               `json:"status"`
+	AC        map[string]string `json:"ac"`   // every Access-Control-* response header
+	Vary      []string          `json:"vary"` // Vary header lines of the response
+}
+
+func corsRuleFile(c *corsCase) string {
+	rule := map[string]interface{}{
+		"Cond":                          "default_t()",
+		"AccessControlAllowOrigins":     c.Rule.Origins,
+		"AccessControlAllowCredentials": c.Rule.Cred,
+	}
+	if c.Rule.Full {
+		rule["AccessControlExposeHeaders"] = []string{"X-Custom-Header"}
+		rule["AccessControlAllowMethods"] = []string{"GET", "PUT"}
+		rule["AccessControlAllowHeaders"] = []string{"X-Custom-Header"}
+		rule["AccessControlMaxAge"] = 600
+	}
+	return mustJSON(map[string]interface{}{"Version": "v1", "Config": map[string]interface{}{product: []interface{}{rule}}})
+}
+
+func corsRun() {
+	mi, err := newMod(mod_cors.NewModuleCors(), "[Basic]\nDataPath = mod_cors/cors_rule.data\n[Log]\nOpenDebug = false\n",
+		"mod_cors/cors_rule.data", emptyRules)
+	if err != nil {
+		panic("harness: mod_cors init: " + err.Error())
+	}
+	defer mi.close()
+	loaded, loadErr := "", ""
+
+	vh.EachCase(func(line []byte) {
+		var c corsCase
+		if err := json.Unmarshal(line, &c); err != nil {
+			vh.Emit(map[string]interface{}{"_bad_case": err.Error()})
+			return
+		}
+		var o corsObs
+		file := corsRuleFile(&c)
+		if loaded != file {
+			loaded, loadErr = file, ""
+			var lerr error
+			if p := vh.Guard(func() { lerr = mi.reload(file) }); p != "" {
+				loadErr = p
+			} else if lerr != nil {
+				loadErr = lerr.Error()
+			}
+			if loadErr != "" {
+				mi.reload(emptyRules)
+			}
+		}
+		if loadErr != "" {
+			o.LoadErr = loadErr
+			if strings.HasPrefix(loadErr, "panic") {
+				o.Panic = loadErr
+			}
+			vh.Emit(map[string]interface{}{"id": c.ID, "obs": o})
+			return
+		}
+		o.Loaded = true
+		var hdr [][2]string
+		if c.Req.Origin != "" {
+			hdr = append(hdr, [2]string{"Origin", c.Req.Origin})
+		}
+		if c.Req.Acrm != "" {
+			hdr = append(hdr, [2]string{"Access-Control-Request-Method", c.Req.Acrm})
+		}
+		req, err := mkReq(c.Req.Method, "origin", "a.example.com", "/x", "", hdr)
+		if err != nil {
+			vh.Emit(map[string]interface{}{"id": c.ID, "_bad_case": "request does not parse: " + err.Error()})
+			return
+		}
+		var res *bfe_http.Response
+		o.Panic = vh.Guard(func() {
+			// as bfe_server does: request-side filters first; a filter may answer itself
+			ret, r := bfe_module.BfeHandlerGoOn, (*bfe_http.Response)(nil)
+			for _, pt := range []int{bfe_module.HandleBeforeLocation, bfe_module.HandleFoundProduct, bfe_module.HandleAfterLocation} {
+				if ret, r = mi.request(pt, req); ret != bfe_module.BfeHandlerGoOn {
+					break
+				}
+			}
+			if ret == bfe_module.BfeHandlerResponse && r != nil {
+				o.Preflight = true
+				res = r
+				return
+			}
+			// otherwise the backend's response passes the response-side filters
+			res = bfe_basic.CreateInternalResp(req, 200)
+			for _, v := range c.Req.Vary {
+				res.Header.Add("Vary", v)
+			}
+			mi.response(bfe_module.HandleReadResponse, req, res)
+		})
+		o.AC = map[string]string{}
+		if res != nil {
+			o.Status = res.StatusCode
+			keys := make([]string, 0)
+			for k := range res.Header {
+				keys = append(keys, k)
+			}
+			sort.Strings(keys)
+			for _, k := range keys {
+				if strings.HasPrefix(strings.ToLower(k), "access-control-") {
+					o.AC[k] = strings.Join(res.Header[k], "\n")
+				}
+			}
+			o.Vary = hdrVals(res.Header, "Vary")
+		}
+		vh.Emit(map[string]interface{}{"id": c.ID, "obs": o})
+	})
+}
